@@ -13,6 +13,8 @@ def corr(rng, tier):
 
 def search(rng, tier, broken, cases):
     S = SS.search_c17(rng, 54 if tier == "quick" and not broken else 540)
+    import dtypesearch
+    dtypesearch.search_dtype(rng, 12 if tier == "quick" and not broken else 60, ['ops'], pid="C17", S=S)   # same numbers typed int64 vs float64
     return S.violations, S.stats()
 
 
